@@ -709,7 +709,8 @@ def main(ctx):
         rec.ok(case, outcome="long:%s:%s" % (fn, form), nontrivial=bool(ident.any()))
 
     # each length = a decimal or binary mark + more than one base period, so every base pair also sits beyond the mark
-    long_ns = ctx.pick((1000200, 2000200), (65736, 1000200, 1048776, 2000200, 2097352, 4000200, 8000200))
+    from mc.longarr import marks as _marks
+    long_ns = tuple(m + 200 for m in _marks(ctx)) + ctx.pick((), (65736, 1000200))
     lunits = [(fn, un, n, form) for n in long_ns for fn, un in (("sphdist", None), ("sphdist", ("rad", "deg")), ("gcirc", None))
               for form in ("arrays", "centre")]
     ctx.lattice("long-arrays", lunits, one_long, bounds=dict(lengths=list(long_ns), base_period=199, forms=["arrays", "centre"]))
